@@ -810,7 +810,7 @@ def M13(vc):
         essence.setdefault('metadata', {})['annotations'] = {k: val[k] for k in names}
     before, ids_before = _snapshot(essence), _deep_ids(essence)
     st = progress.AnnotationsProgressStorage(prefix=prefix)
-    vc.used('ProgressStorage.clear', 'M12'); vc.used('StorageStanzaCleaner.remove_annotations', 'E2b')
+    vc.used('ProgressStorage.clear', 'M12'); vc.used('StorageStanzaCleaner.remove_annotations', 'E2r')
     vc.used('StorageStanzaCleaner.remove_empty_stanzas', 'E2'); vc.used('StorageKeyFormingConvention.__init__', 'M11')
     me = Shadow(st, {'remove_annotations': _annotations_removed, 'remove_empty_stanzas': _stanzas_cleaned})
     ld = vc.load('kopf._cogs.configs.progress', 'AnnotationsProgressStorage.clear',
